@@ -254,6 +254,25 @@ def case(ctx, rng, idx, state):
             ctx.close("q_to_R(select)!=slice_of_full", XRs, XR[:, sl][:, :, sr], rtol=1e-12, scale=np.abs(XR).max(),
                       what="select_left/right", witness=wit)
 
+    # ---------------- the same Rvectors object given the mesh in another order (and through the other FFT library) --------------
+    # history on one object: set_fft_q_to_R is called again with a re-listed mesh; the round trip must hold for the new listing too
+    if nq >= 2:
+        for rep in range(2):
+            perm2 = rng.permutation(nq)
+            kpt_int2 = mesh[perm2]
+            kpt_red2 = kpt_int2 / mp[None, :]
+            if rng.random() < 0.3:
+                kpt_red2 = kpt_red2 + rng.integers(-1, 2, size=kpt_red2.shape)
+            lib2 = "fftw" if rng.random() < 0.5 else "numpy"
+            rvec.set_fft_q_to_R(kpt_red=kpt_red2, fftlib=lib2)
+            cart = int(rng.integers(3))
+            Xq2 = herm_q(rng, nq, nw, cart)
+            XR2 = rvec.q_to_R(Xq2)
+            back = np.array([oracles.ft_explicit(XR2, rvec.iRvec, lattice, k, der=0) for k in kpt_red2])
+            ctx.close("explicit_sum_at_mesh!=input[Rvectors_object_re-used_with_another_listing]", back, Xq2, rtol=1e-11, scale=np.abs(Xq2).max(),
+                      what=f"round trip after re-listing #{rep + 1} cart={cart} lib={lib2}", witness=dict(wit, second_listing=kpt_red2, fftlib2=lib2))
+            ctx.count("relisting_histories")
+
     # ---------------- do_ws_dist on a System_R: H on the mesh must not change -------------------
     if nq >= 2:
         Rbox = np.array([(i, j, k) for i in range(-(mp[0] // 2), mp[0] - mp[0] // 2) for j in range(-(mp[1] // 2), mp[1] - mp[1] // 2)
